@@ -1386,6 +1386,49 @@ async fn id_scenario<B: Payload>(plan: &IdPlan, obs: &ObsCell, stage: &Stage) ->
         keep.hold(h);
     }
 
+    // ---- A2: stop_sending while a read is in flight and STAYS in flight: poll -> Pending,
+    // stop_sending(c), poll again -> still Pending, only then data arrives
+    {
+        stage.set("A2 stop_sending, read stays pending");
+        let (mut us, mut r, id) = raw_uni_accepted::<B>(&pair, &mut aconn, &mut ord, &[0xA2]).await?;
+        let mut got = Vec::new();
+        read_n(&mut r, 1, &mut got, obs).await?;
+        let fw = FlagWaker::new();
+        let mut extra = Vec::new();
+        match poll_until_pending(&mut r, &fw, &mut extra) {
+            Drained::Pending => {}
+            _ => return Err("rig: stream A2 ended instead of staying open".into()),
+        }
+        let c = *plan.codes.last().unwrap_or(&0x10c);
+        match panics::catch(|| quic::RecvStream::stop_sending(&mut r, c)) {
+            Ok(()) => {}
+            Err(p) => obs.borrow_mut().violation("stop_sending-panics[read-pending]", format!("stop_sending({:#x}) panicked with a read in flight: {} at {}", c, p.msg, p.loc)),
+        }
+        // the caller polls again while nothing has arrived
+        match poll_until_pending(&mut r, &fw, &mut extra) {
+            Drained::Pending => obs.borrow_mut().count("stop_sending_then_read_still_pending"),
+            _ => obs.borrow_mut().count("stop_sending_then_read_completed_at_once"),
+        }
+        q_recv(&r, "read-pending+stop_sending+polled", "read-pending", id, obs);
+        let more = rand_bytes(&mut rng, 1, 64);
+        let _ = us.write_all(&more).await;
+        // the read completes (data, or an error because the stop discarded it)
+        match tokio::time::timeout(pace * 4, rig::read_next(&mut r)).await {
+            Ok(Ok(Some(b))) => rig::drain_buf(b, &mut extra),
+            Ok(Ok(None)) => obs.borrow_mut().count("A2_read_after_stop[None]"),
+            Ok(Err(e)) => obs.borrow_mut().count(&format!("A2_read_after_stop[{}]", rig::stream_err_kind(&e))),
+            Err(_) => obs.borrow_mut().count("A2_read_after_stop[still pending]"),
+        }
+        let seen = tokio::time::timeout(pace * 4, us.stopped()).await;
+        match seen {
+            Ok(Ok(code)) => check_outgoing(obs, "stop_sending", c, code.map(|v| v.into_inner())),
+            Ok(Err(e)) => return Err(format!("rig: stopped(): {}", e)),
+            Err(_) => obs.borrow_mut().violation("outgoing-stop_sending-lost[read-stays-pending]", format!("stop_sending({:#x}) issued while a read was in flight, which then stayed pending for another poll, never reached the raw peer", c)),
+        }
+        keep.hold(us);
+        keep.hold(r);
+    }
+
     // ---- B: peer-opened uni: data-buffered, after-read, after-fin
     {
         stage.set("B accepted uni fin");
